@@ -69,7 +69,7 @@ theorem pollRecvResponse_cell (S : Src σ) (H : Hdr) (st : St σ)
         first | rfl | (rw [connErr_isErr] at h; cases h)
     | data _ | cancelPush _ | settings _ | pushPromise _ _ | goaway _ | maxPushId _ | webTransport _ =>
       simp only at h; rw [connErr_isErr] at h; cases h
-  | none => simp only at h; rw [connErr_isErr] at h; cases h
+  | none => rfl
   | pending => rfl
   | data _ | errProto _ | errEnd | errQuic _ | panic => exact fsErr_cell _ _ h
 
